@@ -16,8 +16,14 @@ import (
 
 // TextSrc is a diff held as text, read into a shared diff value by a reader.
 type TextSrc struct {
-	Kind string `json:"kind"` // merge | patch | jd
+	Kind string `json:"kind"` // merge | patch | jd | cat
 	Text string `json:"text,omitempty"`
+	// Cat (kind "cat"): not a text at all but a diff the caller assembled from
+	// two earlier shared diffs, append(copy of diff Cat[0], copy of diff
+	// Cat[1]...). Diff is an exported slice type with exported fields; such a
+	// value (merge hunks followed by strict ones, say) is legal API use that
+	// no reader produces.
+	Cat [2]int `json:"cat,omitempty"`
 	// Derive: the text is rendered from A.Diff(B) when the world is built
 	// ("patch" or "jd"), so that a generated case never embeds jd output
 	Derive string `json:"derive,omitempty"`
@@ -205,6 +211,8 @@ func readDoc(text string, yaml bool) (jd.JsonNode, error) {
 
 func readText(t TextSrc) (jd.Diff, error) {
 	switch t.Kind {
+	case "cat":
+		return jd.Diff{}, nil
 	case "merge":
 		return jd.ReadMergeString(t.Text)
 	case "patch":
@@ -517,6 +525,11 @@ func checkC15(c C15Case) (*Violation, []string, *caseInfo) {
 		out := guardCall(func() outcome { d, err = readText(t); return outcome{} })
 		if out.pan != "" || err != nil {
 			d = jd.Diff{}
+		}
+		if t.Kind == "cat" && t.Cat[0] < len(w.diffs) && t.Cat[1] < len(w.diffs) {
+			// assembled by the caller from private copies of two earlier diffs
+			d = append(deepCopyAny(w.diffs[t.Cat[0]].pristine).(jd.Diff), deepCopyAny(w.diffs[t.Cat[1]].pristine).(jd.Diff)...)
+			stats.probe("caller-assembled-diff")
 		}
 		w.addDiff(fmt.Sprintf("R[%d:%s]", i, t.Kind), d, d)
 	}
@@ -1041,6 +1054,18 @@ func genCase15(c *Chooser) C15Case {
 		default:
 			cs.Texts = append(cs.Texts, TextSrc{Kind: "jd", Derive: "jd"})
 		}
+	}
+	if c.Chance(1, 3) {
+		// a diff assembled from two of the above (often a merge diff followed
+		// by a strict one)
+		n := len(cs.Opts) + len(cs.Texts)
+		i, j := c.Int(n), c.Int(n)
+		for k, o := range cs.Opts {
+			if len(o) > 0 && o[len(o)-1] == "MERGE" && c.Chance(1, 2) {
+				i = k
+			}
+		}
+		cs.Texts = append(cs.Texts, TextSrc{Kind: "cat", Cat: [2]int{i, j}})
 	}
 	nd := len(cs.Opts) + len(cs.Texts)
 	ncall := c.Range(1, 24)
